@@ -102,7 +102,8 @@ def gen_prog(rng: random.Random) -> dict:
             if k == 'offset':
                 ops.append(['offset', i, rng.choice([HOUR, -HOUR, 30 * NS, -90 * MIN])])
             elif k == 'jitter':
-                ops.append(['jitter', i, rng.choice([0, 10 * NS, -60 * NS]), rng.choice([60 * NS, 120 * NS])])
+                lo = rng.choice([0, 10 * NS, -60 * NS, -90 * NS])
+                ops.append(['jitter', i, lo, rng.choice([60 * NS, 120 * NS] + ([0] if lo < 0 else []))])
             else:
                 ops.append([k, i, tod(), rng.choice(SK), rng.choice(RP)])
             kinds.append('t')
@@ -190,6 +191,8 @@ def oracle(r: dict) -> list:
             bad.append(f'object {i}: get_next({dt}) answered {a}, a freshly built equal trigger answers {c}')
         if a != orig and a[0] == 'ok' and orig[0] == 'ok':
             bad.append(f'object {i}: a copy answered get_next({dt}) = {a}, the object itself {orig}')
+    for msg in r.get('holiday_probe', []):
+        bad.append(msg)
     for i, dt, x, y in r.get('late', []):
         if x != y and x[0] == 'ok' and y[0] == 'ok':
             bad.append(f'object {i}: a copy taken after the object had been queried answers get_next({dt}) = {x}, '
@@ -214,6 +217,7 @@ def run(prop: str, tier: str, seed: int, scratch: Path, replay=None, model_ok=Tr
         cases = [json.loads(Path(replay).read_text())['case']]
     else:
         cases = fixed_progs() + [gen_prog(rng) for _ in range(COUNTS[tier])]
+        cases[0]['with_holiday_probe'] = True
     from concurrent.futures import ThreadPoolExecutor
     chunks = [cases[i::8] for i in range(8)]
     with ThreadPoolExecutor(max_workers=8) as ex:
